@@ -678,19 +678,19 @@ wrapped_interval<Number>::operator||(const wrapped_interval<Number> &x) const {
   switch (growth_rate) {
   case 4:
     if (w > 2) {
-      max = wrapint(1 << (w - 2), w);
+      max = wrapint((uint64_t)1 << (w - 2), w);
       break;
     }
     BOOST_FALLTHROUGH;     
   case 8:
     if (w > 3) {
-      max = wrapint(1 << (w - 3), w);
+      max = wrapint((uint64_t)1 << (w - 3), w);
       break;
     }
     BOOST_FALLTHROUGH;     
   case 16:
     if (w > 4) {
-      max = wrapint(1 << (w - 4), w);
+      max = wrapint((uint64_t)1 << (w - 4), w);
       break;
     }
     BOOST_FALLTHROUGH;     
@@ -698,7 +698,7 @@ wrapped_interval<Number>::operator||(const wrapped_interval<Number> &x) const {
     BOOST_FALLTHROUGH;         
   default:
     assert(w > 1);
-    max = wrapint(1 << (w - 1), w);
+    max = wrapint((uint64_t)1 << (w - 1), w);
   }
   if ((m_end - m_start) >= max) {
     return wrapped_interval<Number>::top();
@@ -805,19 +805,19 @@ wrapped_interval<Number> wrapped_interval<Number>::widening_thresholds(
   switch (growth_rate) {
   case 4:
     if (w > 2) {
-      max = wrapint(1 << (w - 2), w);
+      max = wrapint((uint64_t)1 << (w - 2), w);
       break;
     }
     BOOST_FALLTHROUGH; 
   case 8:
     if (w > 3) {
-      max = wrapint(1 << (w - 3), w);
+      max = wrapint((uint64_t)1 << (w - 3), w);
       break;
     }
     BOOST_FALLTHROUGH; 
   case 16:
     if (w > 4) {
-      max = wrapint(1 << (w - 4), w);
+      max = wrapint((uint64_t)1 << (w - 4), w);
       break;
     }
     BOOST_FALLTHROUGH; 
@@ -825,7 +825,7 @@ wrapped_interval<Number> wrapped_interval<Number>::widening_thresholds(
     BOOST_FALLTHROUGH; 
   default:
     assert(w > 1);
-    max = wrapint(1 << (w - 1), w);
+    max = wrapint((uint64_t)1 << (w - 1), w);
   }
   if ((m_end - m_start) >= max) {
     return wrapped_interval<Number>::top();
